@@ -528,8 +528,11 @@ def shape_check(ctx):
     for cnt, lit in SER_LITERALS:
         got = sum(1 for l in lines if l == lit)
         if got != cnt:
-            v.append({'what': 'shape:ser.rs literal changed', 'cfg': ctx.cfgs[0], 'input': hx(lit.encode()), 'expected': '%d line(s) reading exactly: %s' % (cnt, lit),
-                      'actual': '%d such lines' % got, 'shrinkable': False})
+            # a literal Model/Ser.v hard-codes no longer appears in the source as it did: the TIE is broken (not, by itself, a violation):
+            # reported as no-failing-input-found unless the correspondence below finds an input on which the output really differs
+            if not hasattr(ctx, 'ties_broken'):
+                ctx.ties_broken = []
+            ctx.ties_broken.append('shape:src/ser.rs no longer has %d line(s) reading exactly `%s` (%d found)' % (cnt, lit, got))
     return v
 
 # ------------------------------------------------------------------ C03
